@@ -63,13 +63,15 @@ func (c Command) ExecuteIQ(ctx context.Context, iq stanza.IQ, payload xml.TokenR
 	if err != nil {
 		return resp, nil, err
 	}
-	defer func() {
-		respPayload := respPayload
-		if err != nil && respPayload != nil {
+	// The error returns below set the named result respPayload to nil, so keep
+	// our own reference to the response: it must be closed on every error path
+	// or Serve blocks forever waiting for it.
+	defer func(r xmlstream.TokenReadCloser) {
+		if err != nil && r != nil {
 			/* #nosec */
-			respPayload.Close()
+			r.Close()
 		}
-	}()
+	}(respPayload)
 	var t xml.Token
 	t, err = respPayload.Token()
 	if err != nil {
